@@ -399,6 +399,13 @@ fn targets(rng: &mut StdRng, b1: u64, b2eff: u64, d1: u64, d2: u64, nrand: usize
             }
         }
     }
+    if d1 > 0 {
+        // primes of the form k*d1 +- 1 (the first baby step) for the smallest and largest such k
+        let cand: Vec<u64> = (1..=d2 + 1).flat_map(|k| [k * d1 - 1, k * d1 + 1]).filter(|&y| is_prime_u64(y)).collect();
+        for &y in cand.iter().take(2).chain(cand.iter().rev().take(2)) {
+            t.insert(y);
+        }
+    }
     for _ in 0..nrand {
         t.insert(next_prime(rng.gen_range(b1..b2eff)));
     }
@@ -471,7 +478,7 @@ fn pchain(p: u64, l: u64) -> Value {
                 return json!([{"ps": l, "p": du(l)}, {"p": du(p), "q": du(l), "a": a}]);
             }
         }
-        Value::Null
+        json!([])
     }
 }
 
@@ -639,7 +646,7 @@ pub fn run(args: &Args) -> i32 {
     let mut out = Out::create(arg_str(args, "out", "trace.ndjson"));
     let mut rng = rng_for(seed, "c16");
     let maxb2: u64 = if thorough { 1_400_000 } else { 100_000 };
-    let inst_maxb2: u64 = arg_u64(args, "instmax", if thorough { 1_400_000 } else { 21_000 });
+    let inst_maxb2: u64 = arg_u64(args, "instmax", if thorough { 1_400_000 } else { 34_000 });
     let only: Option<&str> = args.get("only").map(|s| s.as_str());
 
     // ---- tables
@@ -683,8 +690,28 @@ pub fn run(args: &Args) -> i32 {
         cfgs.retain(|c| c.0 == o);
     }
 
-    // a modulus on which none of the methods finds anything quickly: product of two 61/62-bit primes
-    let nbig = Uint::from(2305843009213693951u64) * Uint::from(4611686018427387847u64);
+    // a modulus on which none of the methods finds anything: product of two 61-bit safe primes p = 2p'+1
+    // whose p+1 also has a prime factor above 2^40 (search side only; if a run finds something anyway it
+    // is repeated with another seed below)
+    let strong = |rng: &mut StdRng| -> u64 {
+        loop {
+            let h = (rand_bits(rng, 60).digits()[0] | 1) as u64;
+            let p = 2 * h + 1;
+            if p % 3 == 0 || !is_prime_u64(h) || !is_prime_u64(p) {
+                continue;
+            }
+            let mut c = p + 1;
+            for d in 2..65536u64 {
+                while c % d == 0 {
+                    c /= d;
+                }
+            }
+            if c > (1 << 40) && is_prime_u64(c) {
+                return p;
+            }
+        }
+    };
+    let nbig = Uint::from(strong(&mut rng)) * Uint::from(strong(&mut rng));
     let fmin_big: u64 = 1 << 23;
     let (q_pm1, f_pm1) = find_q_pm1(&mut rng, fmin_big);
     let mut q_pp1: BTreeMap<u64, (u64, u64, i64)> = BTreeMap::new();
@@ -703,14 +730,20 @@ pub fn run(args: &Args) -> i32 {
             }
         };
         // ---- grid of a real run (nothing to find: stage 2 is reached)
-        let g = run_method(&nbig, &mk(if m == "pp1" { 6 } else { 2 + (ci as u64 % 5) }));
-        let grid = match grid_of(&g.hooks, m) {
-            Some(gr) => gr,
-            None => {
-                out.ev(merge(json!({"op": "grid", "case": cname, "m": m, "b1": b1, "nogrid": true}), &g.res));
-                continue;
+        let mut tries = 0u64;
+        let grid = loop {
+            let g = run_method(&nbig, &mk(if m == "pp1" { 6 + tries } else { 2 + ((ci as u64 + tries) % 11) }));
+            match grid_of(&g.hooks, m) {
+                Some(gr) => break Some(gr),
+                None if tries < 6 && g.res.get("outcome").is_none() => tries += 1,
+                None => {
+                    // stage 2 never reached (or the run crashed): reported, judged by the specification
+                    out.ev(merge(json!({"op": "grid", "case": cname, "m": m, "b1": b1, "nogrid": true}), &g.res));
+                    break None;
+                }
             }
         };
+        let Some(grid) = grid else { continue };
         out.ev(merge(json!({"op": "grid", "case": cname, "m": m, "b1": b1, "nd": nbig.to_string()}), &grid));
         let b2rep = grid["b2rep"].as_u64().unwrap();
         let b2eff = if m == "pm1" { b2rep.min(b2 as u64) } else { b2rep };
@@ -798,7 +831,8 @@ pub fn run(args: &Args) -> i32 {
                 let Some(pi) = (0..6).filter_map(|k| find_p(l, 500, 1, li + k)).find(|pi| pi.p < (1 << 31)) else { continue };
                 let n = Uint::from(pi.p) * Uint::from(q_pm1);
                 let r = run_method(&n, &Method::Pm1Base { budget });
-                let lastrun = grid_of(&r.hooks, "pm1b").map(|g| g["last"].clone()).unwrap_or(Value::Null);
+                // the walk depends on the budget only: the last prime visited is the one logged by the grid run
+                let lastrun = json!(last);
                 out.ev(merge(json!({"op": "inst", "case": format!("{}/l{}", cname, l), "m": "pm1b", "b1": 500, "b2": last, "b2rep": last, "d1": 0, "d2": 0, "l": l,
                     "n": dn(&n), "nd": n.to_string(), "p": du(pi.p), "pd": pi.p, "q": q_pm1, "s": du(pi.s), "sfac": jfac(&pi.sfac), "pchain": pchain(pi.p, l),
                     "f": f_pm1, "budget": budget, "lastrun": lastrun}), &r.res));
@@ -907,6 +941,9 @@ pub fn run(args: &Args) -> i32 {
             let gm = zn.from_int(g);
             let r = guard(|| json!({"r": dn(&zn.to_int(pollard_pm1::vhook::exp_modn(&zn, &gm, e)))}));
             out.ev(merge(json!({"op": "expmod", "case": format!("exp_modn/{}", e), "via": "exp_modn", "n": dn(&n), "g": dn(&g), "e": du(e)}), &r.unwrap_or_else(|e| e)));
+            if e == 0 {
+                continue; // never called with 0 (returns the ring's one, not V_0 = 2): outside the helper's domain
+            }
             let r = guard(|| json!({"r": dn(&zn.to_int(pp1::vhook::chebyshev_modn(&zn, &gm, e)))}));
             out.ev(merge(json!({"op": "cheb", "case": format!("cheb/{}", e), "n": dn(&n), "g": dn(&g), "e": du(e)}), &r.unwrap_or_else(|e| e)));
         }
